@@ -285,8 +285,8 @@ class RepEngine:
                         a[lid] = src                     # alias
                         return {"b": st["b"], "a": a, "v": st["v"], "f": st["f"]}
                     if is_buf_ty(t) or is_obj_ty(t):
-                        counter[0] += 1
-                        nk = "L%d_%d" % (lid, counter[0])
+                        nk = "L%d" % lid              # one abstract object per binding: a re-bound local is a new object and
+                                                      # nothing can still refer to the one it held (it went out of scope)
                         a[lid] = nk
                         val = get(st, src) if src is not None else _fresh_state(facts, e0)
                         b = dict(st["b"])
@@ -319,8 +319,7 @@ class RepEngine:
                             a[lhs["lid"]] = src          # re-pointing a reference
                             return {"b": st["b"], "a": a, "v": st["v"], "f": st["f"]}
                         if dst is None or (t.startswith("&") is False and dst is not None and dst.startswith("P") is False and copies):
-                            counter[0] += 1
-                            dst = "L%d_%d" % (lhs["lid"], counter[0])
+                            dst = "L%d" % lhs["lid"]
                             a = dict(st["a"])
                             a[lhs["lid"]] = dst
                             st = {"b": st["b"], "a": a, "v": st["v"], "f": st["f"]}
